@@ -81,4 +81,7 @@ theorem migrate_in_one_tx :
 /-- OBLIGATION: SQLite `Append` makes one Exec and takes the offset from that Exec's result -/
 theorem flow_sqlite_append_shape : Ebu.Flow.sqliteShape = true := by decide +kernel
 
+/-- OBLIGATION: the schema is created inside one transaction with a deferred rollback that fires when an error is returned, every statement on the transaction, commit last; and only when the recorded version is below 1 -/
+theorem flow_migration_is_transactional : Ebu.Flow.migrateShape = true := by decide +kernel
+
 end Ebu.Props.C14
